@@ -40,7 +40,7 @@ ASSUMPTIONS = [
 # ------------------------------------------------------------------ alphabets
 LATS_Q = ("sc", "hex", "fcc", "tric")
 LATS_T = ("sc", "tet", "orth", "hex", "fcc", "bcc", "mono", "tric")
-RSETS = ("R0", "shell1", "lopsided", "shell2")
+RSETS = ("R0", "shell1", "lopsided", "shell2", "r15")     # r15: a full header line of degeneracies
 CENTRES = ("zero", "generic", "outside", "small")
 GROUPS = {  # generators compatible with the lattice
     "sc": ([], ["Inversion"], ["C4z", "C4x", "Inversion"], ["C4z", "C4x", "Inversion", "TimeReversal"],
